@@ -273,6 +273,30 @@ def notation_op_verdict(py: PyRepo, op: str):
                 return True
         return any(carries_inst_unchanged(x) for x in v if isinstance(x, tuple) and x)
 
+    # the "apply the operation to the arguments and keep the notation" optimisation: correct only if the body neither mentions nor
+    # BINDS the variable at the positions of its metavariables; the judgements of this code base (evar_is_free = "not free",
+    # true for a binder's own variable) cannot express that, so a guard made of them does not exclude capture
+    def maps_op_over_inst(v) -> bool:
+        if v[0] == 'call' and v[1] == ('name', 'Instantiate') and len(v[2]) == 2 and v[2][0] == ('attr', SELF, 'pattern'):
+            m = v[2][1]
+            while m[0] == 'call' and m[1] == ('name', 'frozendict') and len(m[2]) == 1:
+                m = m[2][0]
+            if m[0] == 'comp' and m[1] == 'dictcomp' and len(m[3]) == 1 and m[3][0][1] == ('call', ('attr', INST, 'items'), (), ()):
+                elt = m[2]
+                return elt[0] == 'pair' and elt[2][0] == 'call' and elt[2][1][0] == 'attr' and elt[2][1][2] == op and elt[2][2] == params
+        return False
+
+    for p in rets:
+        if maps_op_over_inst(p.end[1]):
+            guards = [c for c, b in p.conds if b is True]
+            only_freshness = all(
+                (c[0] == 'call' and c[1][0] == 'attr' and c[1][2] in ('evar_is_free',) and c[1][1] == ('attr', SELF, 'pattern'))
+                or (c[0] == 'cmp' and 'metavars' in repr(c)) for c in guards)
+            if only_freshness:
+                return 'violation', (f'Instantiate.{op} keeps the notation and applies the operation to its arguments whenever the variable is '
+                                     f'"not free" in the body ({[show(c) for c in guards]}); that is also true when the body BINDS the variable '
+                                     f'(Exists/Mu judge their own binder fresh), and then occurrences inside the arguments are captured in '
+                                     f'the expansion but substituted here - the result differs from the operation on the expansion')
     for p in rets:
         if carries_inst_unchanged(p.end[1]):
             return 'violation', (f'Instantiate.{op} returns {show(p.end[1])}: the stored plugs (self.inst) are carried over unchanged, '
